@@ -337,6 +337,12 @@ def models_agree(ctx, models, at, nd, a0):
         # models[i] = [model(i, j) for j ...]: the same element-wise definition as a store at [i][j]
         k0, v0, g0 = models[2][0]
         models = ('arr', models[1], ((('path', (k0, ('lv', v0[1], 1))), v0[2], g0),))
+    if models is not None and models[0] == 'arr' and nd == 3 and len(models[2]) == 1 and models[2][0][0][0] == 'lv' and models[2][0][1][0] == 'arr' \
+            and len(models[2][0][1][2]) == 1 and T.strip_nd(models[2][0][1][1]) == T.index(models[1], models[2][0][0]):
+        # a helper filled row i of the placeholder in place (models[i][j] = model through an alias of models[i]): a store at [i][j]
+        k0, row, g0 = models[2][0]
+        k1, v1, g1 = row[2][0]
+        models = ('arr', models[1], ((('path', (k0, k1)), v1, T.and_([g0, g1])),))
     if models is None or models[0] != 'arr':
         return False, f'self.models is not filled element-wise: {T.brief(models, 120) if models else None}'
     init, stores = models[1], models[2]
